@@ -112,6 +112,10 @@ impl<'a> Sess<'a> {
                 Some(x) => sk.update(x),
                 None => sk.verif_row_col_update((row << 6) | col),
             }
+            // every state must be serializable (C17): the image itself is looked at in the checkpoints
+            if sk.lg_k() <= 10 {
+                let _ = sk.serialize();
+            }
             sk
         }));
         match r {
@@ -530,6 +534,71 @@ fn union_sparse_cases(out: &mut Shards, rng: &mut Rng) {
     }
 }
 
+/// a union whose result just crosses the Sliding threshold (27 K / 8 coupons): some rows are still empty
+fn union_threshold(out: &mut Shards, rng: &mut Rng, lgk: u8) {
+    let mut s = Sess::new(out, "cpc-union-threshold");
+    let k = 1u64 << lgk;
+    let each = 27 * k / 16 + k / 8;
+    let mut ins = vec![];
+    for _ in 0..2 {
+        let id = s.new_sketch(lgk);
+        let mut n = 0;
+        while (s.get(id).num_coupons() as u64) < each && n < 100 * each && !s.dead {
+            let x = rng.next();
+            let (r, c) = row_col_of(x, lgk);
+            s.upd(id, r, c, Some(x));
+            n += 1;
+        }
+        ins.push(id);
+    }
+    let u = s.new_union(lgk);
+    s.uupd(u, ins[0]);
+    s.utosk(u);
+    s.uupd(u, ins[1]);
+    let r = s.utosk(u);
+    s.chk(r);
+    let u2 = s.new_union(lgk);
+    s.uupd(u2, r);
+    let r2 = s.utosk(u2);
+    s.chk(r2);
+}
+
+/// the same with crafted coupons that leave some rows empty while the union's result is Sliding
+/// (for hashed items an empty row at that fill is a 1-in-4000 event per row)
+fn union_threshold_crafted(out: &mut Shards, lgk: u8) {
+    let mut s = Sess::new(out, "cpc-union-threshold");
+    let k = 1u32 << lgk;
+    let empty_rows = [0u32, k / 2, k - 1];
+    let mut ins = vec![];
+    for half in 0..2u32 {
+        let id = s.new_sketch(lgk);
+        for r in 0..k {
+            if empty_rows.contains(&r) {
+                continue;
+            }
+            // columns 0..5 split between the two inputs, plus one scattered higher column
+            for c in (3 * half)..(3 * half + 3) {
+                s.upd(id, r, c, None);
+            }
+            if r % 3 == half {
+                s.upd(id, r, 9 + (r % 7), None);
+            }
+        }
+        s.chk(id);
+        ins.push(id);
+    }
+    let u = s.new_union(lgk);
+    s.uupd(u, ins[0]);
+    s.utosk(u);
+    s.uupd(u, ins[1]);
+    let r = s.utosk(u);
+    s.chk(r);
+    // the result as an input again changes nothing
+    s.uupd(u, r);
+    let r2 = s.utosk(u);
+    s.chk(r2);
+}
+
 pub fn record(args: &Args) {
     let seed = args.u64("seed", 1);
     let mut rng = Rng::new(seed ^ 0xC9C);
@@ -583,6 +652,12 @@ pub fn record(args: &Args) {
                 union_random(&mut out, &mut rng, ulgk, lgks, if thorough { 12 } else { 10 }, if thorough { 14 } else { 10 });
             }
             union_sparse_cases(&mut out, &mut rng);
+            for &lgk in &[4u8, 5, 6, 7] {
+                union_threshold_crafted(&mut out, lgk);
+            }
+            for &lgk in if thorough { &[6u8, 8, 9, 10, 12][..] } else { &[6u8, 8, 9][..] } {
+                union_threshold(&mut out, &mut rng, lgk);
+            }
         }
     }
     let (runs, events) = out.finish();
